@@ -196,6 +196,135 @@ impl SubCheckT for CnfUtil {
 }
 
 // ---------------------------------------------------------------------------
+// the same CNF utilities over 9..19 variables (bit-mask evaluation instead of the 8-variable truth table)
+// ---------------------------------------------------------------------------
+
+#[derive(Clone, Debug, Serialize, Deserialize)]
+pub struct WideCnfCase {
+    pub nv: u8,
+    pub clauses: Vec<Vec<(u8, bool)>>,
+    pub weights: Vec<(u8, u8)>,
+    pub partial: Vec<Option<bool>>,
+    pub cond: (u8, bool),
+}
+
+pub struct WideCnf;
+
+pub fn run_wide_cnf(case: &WideCnfCase, st: &mut Stats) -> CaseResult {
+    let nv = case.nv as usize;
+    // every variable below nv is mentioned (a tautology on the last one fixes num_vars)
+    let mut clauses: Vec<Vec<(usize, bool)>> = case.clauses.iter().map(|c| c.iter().map(|(v, p)| ((*v as usize) % nv, *p)).collect()).collect();
+    clauses.push(vec![(nv - 1, true), (nv - 1, false)]);
+    let lits: Vec<Vec<Literal>> = clauses.iter().map(|c| c.iter().map(|(v, p)| Literal::new(VarLabel::new_usize(*v), *p)).collect()).collect();
+    let cnf = Cnf::new(&lits);
+    ensure!(cnf.num_vars() == nv, "C15/cnf-num-vars", "Cnf::new(..).num_vars() = {}, largest label + 1 = {}", cnf.num_vars(), nv);
+    // clause masks: (positive literals, negative literals)
+    let masks: Vec<(u32, u32)> = clauses
+        .iter()
+        .map(|c| c.iter().fold((0u32, 0u32), |(p, n), (v, pol)| if *pol { (p | 1 << v, n) } else { (p, n | 1 << v) }))
+        .collect();
+    let sat = |a: u32| masks.iter().all(|(p, n)| (a & p) != 0 || (!a & n) != 0);
+    let mut real = WmcParams::<RealSemiring>::default();
+    let mut ff = WmcParams::<FiniteField<P>>::default();
+    let mut w = vec![(1u128, 1u128); nv];
+    for (i, wi) in w.iter_mut().enumerate() {
+        let (l, h) = case.weights.get(i).copied().unwrap_or((1, 1));
+        // reals 0..2 (a sum of up to 2^19 products below 2^19 stays exact), residues spread over the field
+        *wi = ((l % 3) as u128, (h % 3) as u128);
+        real.set_weight(VarLabel::new_usize(i), RealSemiring(wi.0 as f64), RealSemiring(wi.1 as f64));
+        ff.set_weight(VarLabel::new_usize(i), FiniteField::new((l as u128 * 7_654_321 + 2) % P), FiniteField::new((h as u128 * 1_234_577 + 3) % P));
+    }
+    let wf: Vec<(u128, u128)> = (0..nv)
+        .map(|i| {
+            let (l, h) = case.weights.get(i).copied().unwrap_or((1, 1));
+            ((l as u128 * 7_654_321 + 2) % P, (h as u128 * 1_234_577 + 3) % P)
+        })
+        .collect();
+    // brute force with the products of the low 8 variables tabulated by the harness's own loop order
+    let mut exp = 0u128;
+    let mut expf = 0u128;
+    let mut models = 0u64;
+    for a in 0..(1u32 << nv) {
+        if !sat(a) {
+            continue;
+        }
+        models += 1;
+        let mut pr = 1u128;
+        let mut pf = 1u128;
+        for i in 0..nv {
+            let bit = (a >> i) & 1 == 1;
+            pr *= if bit { w[i].1 } else { w[i].0 };
+            pf = pf * (if bit { wf[i].1 } else { wf[i].0 }) % P;
+        }
+        exp += pr;
+        expf = (expf + pf) % P;
+    }
+    let got = cnf.wmc(&real).0;
+    ensure!(got == exp as f64, "C15/cnf-wmc", "Cnf::wmc = {} over {} variables but the brute-force sum over the {} models is {}", got, nv, models, exp);
+    let gotf = cnf.wmc(&ff).value();
+    ensure!(gotf == expf, "C15/cnf-wmc-finite-field", "Cnf::wmc over GF(P32) = {} over {} variables but brute force gives {}", gotf, nv, expf);
+    // eval on sampled assignments and on assignments falsifying one clause
+    let seed = case.weights.iter().fold(0xC15u64, |a, (l, h)| a.wrapping_mul(131).wrapping_add((*l as u64) << 8 | *h as u64));
+    for k in 0..48u64 {
+        let asg: Vec<bool> = if (k as usize) < clauses.len() && k % 2 == 0 { crate::big::falsifying(seed, k, nv, &clauses[k as usize]) } else { crate::big::assignment(seed, k, nv) };
+        let a: u32 = asg.iter().enumerate().fold(0, |m, (i, b)| if *b { m | 1 << i } else { m });
+        ensure!(cnf.eval(&asg) == sat(a), "C15/cnf-eval", "Cnf::eval = {} on an assignment of {} variables where the clauses are {}", cnf.eval(&asg), nv, sat(a));
+    }
+    // is_sat_partial and condition
+    let m: Vec<Option<bool>> = (0..nv).map(|i| case.partial.get(i).copied().flatten()).collect();
+    let pm = PartialModel::from_assignments(&m);
+    let want_sat = clauses.iter().all(|c| c.iter().any(|(v, p)| m[*v] == Some(*p)));
+    ensure!(cnf.is_sat_partial(&pm) == want_sat, "C15/cnf-is-sat-partial", "is_sat_partial({:?}) = {} but 'every clause has a literal made true' is {}", m, cnf.is_sat_partial(&pm), want_sat);
+    let (cv, cb) = ((case.cond.0 as usize) % nv, case.cond.1);
+    let c2 = cnf.condition(Literal::new(VarLabel::new_usize(cv), cb));
+    ensure!(
+        c2.clauses().iter().all(|c| c.iter().all(|l| l.label().value_usize() != cv)),
+        "C15/cnf-condition-still-mentions-variable",
+        "condition(x{} = {}) still mentions the variable",
+        cv,
+        cb
+    );
+    for k in 0..32u64 {
+        let mut asg = crate::big::assignment(seed ^ 0x55, k, nv);
+        asg[cv] = cb;
+        let a: u32 = asg.iter().enumerate().fold(0, |m, (i, b)| if *b { m | 1 << i } else { m });
+        ensure!(c2.num_vars() <= nv, "C15/cnf-condition-num-vars", "conditioning increased num_vars from {} to {}", nv, c2.num_vars());
+        ensure!(c2.eval(&asg) == sat(a), "C15/cnf-condition", "condition(x{} = {}) evaluates to {} where the cofactor is {}", cv, cb, c2.eval(&asg), sat(a));
+    }
+    st.flag(if nv >= 17 { "wide.nv.17-19" } else if nv >= 13 { "wide.nv.13-16" } else { "wide.nv.9-12" }, true);
+    if models > 0 && models < (1u64 << nv) && exp > 0 {
+        st.mark_nontrivial();
+    }
+    Ok(())
+}
+
+impl SubCheckT for WideCnf {
+    type Case = WideCnfCase;
+    const NAME: &'static str = "cnf_many_variables";
+    const RULE: &'static str = "clause lists over 9..19 variables (2..10 clauses of 1..5 literals): Cnf::wmc (reals 0..2, GF(479001599) with residues spread over the field) = the harness's own enumeration of all 2^n assignments with bit-mask clause evaluation; eval on sampled and clause-falsifying assignments; is_sat_partial; condition(l) = the cofactor on sampled assignments and no longer mentions the variable. Non-trivial: satisfiable, not a tautology, non-zero count";
+    fn cases(tier: Tier) -> u32 {
+        tier.pick(160, 3000)
+    }
+    fn strategy(_tier: Tier) -> BoxedStrategy<WideCnfCase> {
+        (prop_oneof![2 => 9u8..=12, 2 => 13u8..=16, 3 => 17u8..=19])
+            .prop_flat_map(|nv| {
+                (
+                    Just(nv),
+                    proptest::collection::vec(proptest::collection::vec((0..nv, any::<bool>()), 1..=5), 2..=10),
+                    proptest::collection::vec((any::<u8>(), any::<u8>()), nv as usize),
+                    proptest::collection::vec(proptest::option::weighted(0.6, any::<bool>()), nv as usize),
+                    (any::<u8>(), any::<bool>()),
+                )
+            })
+            .prop_map(|(nv, clauses, weights, partial, cond)| WideCnfCase { nv, clauses, weights, partial, cond })
+            .boxed()
+    }
+    fn run(case: &WideCnfCase, st: &mut Stats) -> CaseResult {
+        run_wide_cnf(case, st)
+    }
+}
+
+// ---------------------------------------------------------------------------
 // AssignmentIter, Literal
 // ---------------------------------------------------------------------------
 
@@ -1204,10 +1333,10 @@ fn _tt(_: Tt) {}
 pub fn property() -> Property {
     Property {
         id: "C15",
-        subs: vec![sub::<CnfUtil>(), sub::<Small>(), sub::<Models>(), sub::<Hasher>(), sub::<BigHasher>()],
+        subs: vec![sub::<CnfUtil>(), sub::<WideCnf>(), sub::<Small>(), sub::<Models>(), sub::<Hasher>(), sub::<BigHasher>()],
         fuzz: vec![],
         assumptions: vec![
-            "CNFs over <= 7 variables; exact small-integer weights; the hasher additionally on formulas of 300..2300 clauses over disjoint variables (600..6000 literal occurrences; CnfHasher::new is quadratic, larger formulas are out of a run's budget)",
+            "CNFs over <= 7 variables (evaluation, conditioning and counting also over 9..19 variables, against the harness's own enumeration); exact small-integer weights; the hasher additionally on formulas of 300..2300 clauses over disjoint variables (600..6000 literal occurrences; CnfHasher::new is quadratic, larger formulas are out of a run's budget)",
             "hash(m) is only compared for assignments m that contain every decision in effect and falsify no clause, as the statement requires",
             "residual identity is occurrence-level (one prime per literal occurrence); 'only then' is asserted for pairs of states whose products of residual-occurrence primes both fit in 128 bits",
         ],
